@@ -332,3 +332,57 @@ pub fn run_given_case(c: &Case, stream: &str) -> (String, String) {
     if stream == "C04B" && verdict.starts_with("FAIL F30") { verdict = "skip F30 is judged by C01".into(); }
     (case, format!("{obs} ORACLE {verdict}"))
 }
+
+/// C01F — an outage of the terminal: from some operation on every terminal call fails, some operations later the
+/// terminal works again. While it is down nothing reaches the screen (the first call of every draw fails), so once it
+/// is back the next draw must find the screen as the last *completed* draw left it: after a final tick the screen is
+/// the lines printed while the terminal worked, in order, followed by the current frame — no stale row of the frame
+/// that was on screen during the outage, no row erased that is not the bar's. Judged by an expectation computed
+/// here from the getters (template `{msg} {pos}/{len}`, messages of one to three lines so that the frame's height
+/// changes during the outage). `multi`: the same with two bars in a MultiProgress.
+pub fn run_outage(seed: u64, tier: &str, out: &mut Out) {
+    use indicatif::verif_hooks as vh;
+    let mut rng = Rng::new(seed ^ 0x01f);
+    let n = if tier == "thorough" { 60_000 } else { 1_500 };
+    for case in 0..n {
+        vh::set_auto_advance_ns(0); vh::set_now_ns(1_000_000_000_000);
+        let multi = case % 3 == 2;
+        let rec = Recorder::new(24, 40, true);
+        let mp = if multi { Some(indicatif::MultiProgress::with_draw_target(ProgressDrawTarget::term_like(Box::new(rec.clone())))) } else { None };
+        let mk = |len: u64| { let pb = match &mp { Some(m) => m.add(ProgressBar::new(len)), None => ProgressBar::with_draw_target(Some(len), ProgressDrawTarget::term_like(Box::new(rec.clone()))) };
+            pb.set_style(ProgressStyle::with_template("{msg} {pos}/{len}").unwrap()); pb };
+        let bars: Vec<ProgressBar> = if multi { vec![mk(100), mk(50)] } else { vec![mk(100)] };
+        for b in &bars { b.tick(); }
+        let nops = rng.range(4, 12) as usize;
+        let start = rng.range(1, nops as u64 - 2) as usize; let end = (start + rng.range(1, 3) as usize).min(nops - 1);
+        let mut printed: Vec<String> = Vec::new(); let mut hist: Vec<String> = Vec::new();
+        let panicked = std::panic::catch_unwind(std::panic::AssertUnwindSafe(|| {
+            for k in 0..nops {
+                if k == start { rec.set_fault(rec.calls(), true); hist.push("DOWN".into()); }
+                if k == end { rec.clear_fault(); hist.push("UP".into()); }
+                let down = k >= start && k < end;
+                let b = &bars[rng.below(bars.len() as u64) as usize];
+                match rng.below(6) {
+                    0 => { let d = rng.below(9); b.inc(d); hist.push(format!("inc {d}")); }
+                    1 | 2 => { let m = *rng.pick(&["", "a", "a\nb", "a\nb\nc", "xyz"]); b.set_message(m); hist.push(format!("msg {m:?}")); }
+                    3 => { let l = format!("L{k}"); b.println(&l); if !down { printed.push(l.clone()); } hist.push(format!("println {l}")); }
+                    4 => { b.tick(); hist.push("tick".into()); }
+                    _ => { let p = rng.below(60); b.set_position(p); hist.push(format!("set {p}")); }
+                }
+            }
+            rec.clear_fault();
+            for b in &bars { b.tick(); }
+        })).is_err();
+        let mut want = printed.clone();
+        for b in &bars {
+            let text = format!("{} {}/{}", b.message(), b.position(), b.length().unwrap());
+            for l in text.split('\n') { want.push(l.trim_end().to_string()); }
+        }
+        let got = rec.rows();
+        for b in bars { std::mem::forget(b); }
+        let verdict = if panicked { format!("FAIL panic during an outage of the terminal: {}", hist.join(", ")) }
+            else if got != want { format!("FAIL outage after the terminal is back the screen is {got:?}, expected {want:?} (printed lines + current frame); history: {}", hist.join(", ")) }
+            else { "ok".into() };
+        out.emit(&format!("NOMODEL OUTAGE multi={multi} {}", hist.join(",").replace('\n', "\\n").replace(' ', "_")), &format!(" ORACLE {}", verdict.replace('\n', "\\n")));
+    }
+}
